@@ -322,9 +322,9 @@ def drive(exe, lines, args=(), workdir=False, timeout_per_case=20.0, env=None):
                 i += 1
                 if stderr == "TIMEOUT":
                     nfaults += 1
-                if nfaults >= 6:
+                if nfaults >= 4:
                     # several hangs: the run already has its failing inputs; do not spend minutes on more
-                    out.extend(["fault skipped-after-6-hangs"] * (len(lines) - i))
+                    out.extend(["fault skipped-after-4-hangs"] * (len(lines) - i))
                     i = len(lines)
         return out
     finally:
